@@ -247,6 +247,61 @@ def burst(ctx, inputs, solo, n, base):
     return traces, final
 
 
+def _fork_import(args):
+    inp, out = args
+    import gffutils
+    import contextlib
+    import io
+    import warnings
+    try:
+        with contextlib.redirect_stderr(io.StringIO()), warnings.catch_warnings():
+            warnings.simplefilter("ignore")
+            db = gffutils.create_db(inp, out, force=True, merge_strategy="create_unique")
+            db.conn.close()
+        return None
+    except Exception as e:  # noqa
+        return "%s: %s" % (type(e).__name__, str(e)[:120])
+
+
+def fork_burst(ctx, inputs, solo, n, base):
+    """separate processes that were FORKED from one parent which had imported gffutils already (multiprocessing's default on this platform): whatever
+    the importer computed at import time or cached per module is shared by all of them.  Outcome-based: every output equals its solitary run,
+    nobody crashed, the shared temp dir is empty afterwards."""
+    import multiprocessing as mp
+    import tempfile
+    import gffutils  # noqa: imported in the parent before the fork, on purpose
+    tmpdir = os.path.join(base, "tmp")
+    os.makedirs(tmpdir)
+    kinds = [ctx.rng.choice(["gff", "gtf", "gff_real", "gtf_real"] if "gff_real" in inputs else ["gff", "gtf"]) for _ in range(n)]
+    work = []
+    for i, k in enumerate(kinds):
+        os.makedirs(os.path.join(base, "f%d" % i))
+        work.append((inputs[k], os.path.join(base, "f%d" % i, "annotation.db")))
+    old_env, old_td = os.environ.get("TMPDIR"), tempfile.tempdir
+    os.environ["TMPDIR"] = tmpdir
+    tempfile.tempdir = tmpdir
+    try:
+        with mp.get_context("fork").Pool(min(n, 12)) as pool:
+            errs = pool.map(_fork_import, work, 1)
+    finally:
+        tempfile.tempdir = old_td
+        if old_env is None:
+            os.environ.pop("TMPDIR", None)
+        else:
+            os.environ["TMPDIR"] = old_env
+    bad = []
+    for i, (k, e) in enumerate(zip(kinds, errs)):
+        if e:
+            bad.append(("forked:process_crashed", {"kind": k, "error": e}))
+        elif not os.path.exists(work[i][1]) or G.canon_snap(dbio.proj_file(work[i][1])) != solo[k]["db"]:
+            bad.append(("forked:output_differs_from_solitary_run", {"kind": k}))
+    left = sorted(os.listdir(tmpdir))
+    if left:
+        bad.append(("forked:cleanup_directory_not_empty", {"listing": left[:6]}))
+    shutil.rmtree(base, ignore_errors=True)
+    return bad, kinds
+
+
 def readers(ctx, inputs, n, base):
     import gffutils
     os.makedirs(base)
@@ -344,6 +399,13 @@ def run(ctx):
             if final:
                 ctx.violation({"burst": n}, "burst:cleanup_directory_not_empty", {"listing": final})
             ctx.count(("burst", n, rep), True, n=n)
+    # forked workers (a parent that imported the library, then fork): same statement, other way of being "separate processes"
+    for n in ([12, 24] if thorough else [12]):
+        bad, kinds = fork_burst(ctx, inputs, solo, n, os.path.join(base, "fk%d" % n))
+        for clause, detail in bad[:2]:
+            ctx.violation({"forked": n, "kinds": kinds}, clause, detail)
+        ctx.count(("forked", n), True, n=n)
+        ctx.traces += n
     # concurrent readers of one finished file
     for n in ([4, 16, 32] if thorough else [4, 16]):
         want, got = readers(ctx, inputs, n, os.path.join(base, "r%d" % n))
@@ -365,6 +427,12 @@ def replay(ctx, rec):
         os.makedirs(base)
         v = solitary({c["input"]: make_inputs(ctx, base)[c["input"]]}, base)[c["input"]]
         return bool(v["final"]) or v["rc"] != 0
+    if "forked" in c:
+        base = ctx.path("c20f")
+        os.makedirs(base)
+        inputs = make_inputs(ctx, base)
+        solo = solitary(inputs, base)
+        return any(fork_burst(ctx, inputs, solo, c["forked"], os.path.join(base, "rf%d" % rep))[0] for rep in range(3))
     if "burst" in c:            # a free-running burst: run bursts of that size again (a race: three attempts) and judge every process
         base = ctx.path("c20b")
         os.makedirs(base)
